@@ -46,6 +46,14 @@ def build_network(case: dict, workdir: Path):
     from naunet.species import Species
 
     Species.reset()
+    if case.get("bundled"):
+        # a bundled example, configured the way its example module (and `naunet example`) configures it
+        import importlib
+        from ..common import REPO
+        mod = importlib.import_module(f"naunet.examples.{case['bundled']}")
+        return Network(filelist=str(REPO / "naunet" / "examples" / case["bundled"] / mod.files), fileformats=mod.formats, elements=list(mod.elements),
+                       pseudo_elements=list(mod.pseudo_elements), allowed_species=list(mod.allowed_species), required_species=list(mod.extra_species),
+                       heating=list(mod.heating), cooling=list(mod.cooling), shielding=dict(mod.shielding), grain_model=mod.grain_model)
     net = case["net"]
     provide_binding_energies(net)
     reacs = net["reactions"]
